@@ -65,35 +65,35 @@ Proof.
   intros Hi Hn. apply tr_extend. intros x Hx. apply sm_app_cons_other. intros ->. apply Hn. apply Hi. exact Hx.
 Qed.
 
-Lemma inv_extend m st ps s v :
-  Inv m st ps -> ~ In s (sm_dom m) -> is_symbol v = true -> type_of v = type_of s -> wt v = true ->
-  Inv ((s, v) :: m) st ps.
+Lemma inv_extend v m st ps s v0 :
+  Inv v m st ps -> ~ In s (sm_dom m) -> is_symbol v0 = true -> type_of v0 = type_of s -> wt v0 = true ->
+  Inv v ((s, v0) :: m) st ps.
 Proof.
   intros [Hrun Hm Hs He] Hn H1 H2 H3. constructor; auto.
   - apply map_ok_cons; auto.
   - intros e id H. destruct (He _ _ H) as (Hlt & Hf & Hi). split; [exact Hlt|]. split.
-    + rewrite (tr_cons m s v e Hi Hn). exact Hf.
+    + rewrite (tr_cons m s v0 e Hi Hn). exact Hf.
     + intros x Hx. right. apply Hi. exact Hx.
 Qed.
 
 (** a symbol that is not mapped is not cached *)
-Lemma not_cached m st ps s : Inv m st ps -> is_symbol s = true -> ~ In s (sm_dom m) -> find_expr s (w_exprs st) = None.
+Lemma not_cached v m st ps s : Inv v m st ps -> is_symbol s = true -> ~ In s (sm_dom m) -> find_expr s (w_exprs st) = None.
 Proof.
   intros Hinv Hs Hn. destruct (find_expr s (w_exprs st)) as [i|] eqn:E; [|reflexivity]. exfalso.
-  destruct (i_exprs _ _ _ Hinv _ _ E) as (_ & _ & Hi). apply Hn. apply Hi. rewrite (syms_symbol s Hs). left. reflexivity.
+  destruct (i_exprs _ _ _ _ Hinv _ _ E) as (_ & _ & Hi). apply Hn. apply Hi. rewrite (syms_symbol s Hs). left. reflexivity.
 Qed.
 
 (** registering an expression when the reader's new state is only known up to names *)
-Lemma inv_reg_expr' m st ps l e ps' :
-  Inv m st ps -> find_expr e (w_exprs st) = None -> incl (syms e) (sm_dom m) ->
-  parse_line true ps l = POk ps' -> p_types ps' = p_types ps ->
+Lemma inv_reg_expr' v m st ps l e ps' :
+  Inv v m st ps -> find_expr e (w_exprs st) = None -> incl (syms e) (sm_dom m) ->
+  parse_line_v v true ps l = POk ps' -> p_types ps' = p_types ps ->
   p_signals ps' = PM.add (key (w_next st)) (tr m e) (p_signals ps) ->
-  Inv m (reg_expr (emit (fst (new_id st)) l) e (w_next st)) ps' /\
+  Inv v m (reg_expr (emit (fst (new_id st)) l) e (w_next st)) ps' /\
   mono st (reg_expr (emit (fst (new_id st)) l) e (w_next st)).
 Proof.
   intros [Hrun Hm Hs He] Hnone Hincl Hl Ht Hsg. split.
   - constructor.
-    + apply (run_emit _ l ps); [exact Hrun|exact Hl].
+    + apply (run_emit v _ l ps); [exact Hrun|exact Hl].
     + exact Hm.
     + intros t0 id H. cbn [reg_expr emit new_id fst w_sorts w_next] in *. destruct (Hs _ _ H) as [Hlt Hf]. split; [lia|]. rewrite Ht. exact Hf.
     + intros e0 id. cbn [reg_expr emit new_id fst w_exprs w_next find_expr]. destruct (expr_eqb e0 e) eqn:E.
@@ -146,32 +146,34 @@ Lemma rest_eq_no_props ps ps' : rest_eq ps ps' -> no_props ps -> no_props ps'.
 Proof. intros (_ & _ & _ & H4 & H5 & H6) (A & B & C). repeat split; congruence. Qed.
 
 (** ** inputs *)
-Lemma emit_input_sim m st ps i ins sts sids :
-  Inv m st ps -> Sh m ps ins sts sids -> no_props ps ->
+Lemma emit_input_sim v m st ps i ins sts sids :
+  Inv v m st ps -> Sh m ps ins sts sids -> no_props ps ->
   is_symbol i = true -> wt i = true -> efits i = true -> ~ In i (sm_dom m) ->
   w_next (emit_input st i) <= BOUND ->
-  exists v ps', Inv ((i, v) :: m) (emit_input st i) ps' /\ Sh ((i, v) :: m) ps' (ins ++ [i]) sts sids /\ no_props ps' /\
+  exists sv ps', Inv v ((i, sv) :: m) (emit_input st i) ps' /\ Sh ((i, sv) :: m) ps' (ins ++ [i]) sts sids /\ no_props ps' /\
                 w_next st <= w_next (emit_input st i).
 Proof.
   intros Hinv Hsh Hnp Hsym Hwt Hf Hn Hb. unfold emit_input in *.
   destruct (sort_id st (type_of i)) as [st1 sort] eqn:Es. cbn [new_id] in *. cbn [reg_expr emit w_next] in Hb.
-  destruct (sort_id_sim m st ps (type_of i) st1 sort Hinv (efits_ty i Hf) Es ltac:(lia))
+  destruct (sort_id_sim v m st ps (type_of i) st1 sort Hinv (efits_ty i Hf) (wt_pos i Hwt) Es ltac:(lia))
     as (ps1 & Hinv1 & Hr1 & Hsg1 & Hfs & Hmo1 & He1).
-  destruct (i_sorts _ _ _ Hinv1 _ _ Hfs) as [Hls Hts]. unfold BOUND in *.
+  destruct (i_sorts _ _ _ _ Hinv1 _ _ Hfs) as [Hls Hts]. unfold BOUND in *.
   destruct (input_line ps1 (w_next st1) sort (type_of i) ltac:(lia) ltac:(lia) Hts (wt_pos i Hwt)) as (ps' & n & Hl & Hce).
-  set (v := mk_sym n (type_of i)) in *.
-  destruct (mk_sym_props n (type_of i) (wt_pos i Hwt)) as (Hv1 & Hv2 & Hv3). fold v in Hv1, Hv2, Hv3.
-  exists v, ps'.
-  pose proof (inv_extend m st1 ps1 i v Hinv1 Hn Hv1 Hv2 Hv3) as Hinv1'.
-  assert (Hnone : find_expr i (w_exprs st1) = None) by (apply (not_cached m st1 ps1); auto).
+  set (sv := mk_sym n (type_of i)) in *.
+  destruct (mk_sym_props n (type_of i) (wt_pos i Hwt)) as (Hv1 & Hv2 & Hv3). fold sv in Hv1, Hv2, Hv3.
+  exists sv, ps'.
+  pose proof (inv_extend v m st1 ps1 i sv Hinv1 Hn Hv1 Hv2 Hv3) as Hinv1'.
+  assert (Hnone : find_expr i (w_exprs st1) = None) by (apply (not_cached v m st1 ps1); auto).
   destruct Hce as (C1 & C2 & C3 & C4 & C5 & C6 & C7 & C8). cbn [set_signal add_input p_types p_statemap p_signals p_inputs p_states p_outputs p_bads p_constraints] in *.
-  assert (Htr : tr ((i, v) :: m) i = v).
+  assert (Htr : tr ((i, sv) :: m) i = sv).
   { destruct i; cbn [is_symbol] in Hsym; try discriminate; cbn [tr]; apply sm_app_cons_same. }
-  destruct (inv_reg_expr' ((i, v) :: m) st1 ps1 [num (w_next st1); "input"; num sort] i ps' Hinv1') as [Hinv' Hmono]; auto.
+  assert (Hlv : parse_line_v v true ps1 [num (w_next st1); "input"; num sort] = POk ps').
+  { apply plv; [intros _; apply (decl_pre ps1 _ sort (type_of i)); auto; [lia|apply wt_pos; exact Hwt]|exact Hl]. }
+  destruct (inv_reg_expr' v ((i, sv) :: m) st1 ps1 [num (w_next st1); "input"; num sort] i ps' Hinv1') as [Hinv' Hmono]; auto.
   { rewrite (syms_symbol i Hsym). intros x [<-|[]]. left. reflexivity. }
   { rewrite Htr. exact C3. }
   split; [exact Hinv'|]. split; [|split].
-  - pose proof (rest_eq_sh _ _ _ _ _ _ Hr1 Hsh) as Hsh1. destruct (sh_extend m ps1 ins sts sids i v Hsh1 Hn) as [Hx1 Hx2].
+  - pose proof (rest_eq_sh _ _ _ _ _ _ Hr1 Hsh) as Hsh1. destruct (sh_extend m ps1 ins sts sids i sv Hsh1 Hn) as [Hx1 Hx2].
     destruct Hsh1 as [A B C D E F]. constructor.
     + intros s. cbn [sm_dom map fst]. rewrite !in_app_iff. cbn [In].
       specialize (A s). rewrite in_app_iff in A. change (map fst m) with (sm_dom m). tauto.
@@ -198,11 +200,11 @@ Qed.
 
 Definition sym_ok (i : expr) : Prop := is_symbol i = true /\ wt i = true /\ efits i = true.
 
-Lemma inputs_sim : forall l m st ps ins,
-  Inv m st ps -> Sh m ps ins [] [] -> no_props ps ->
+Lemma inputs_sim v : forall l m st ps ins,
+  Inv v m st ps -> Sh m ps ins [] [] -> no_props ps ->
   Forall sym_ok l -> NoDup (ins ++ l) ->
   w_next (fold_left emit_input l st) <= BOUND ->
-  exists m' ps', Inv m' (fold_left emit_input l st) ps' /\ Sh m' ps' (ins ++ l) [] [] /\ no_props ps'.
+  exists m' ps', Inv v m' (fold_left emit_input l st) ps' /\ Sh m' ps' (ins ++ l) [] [] /\ no_props ps'.
 Proof.
   induction l as [|i l IH]; intros m st ps ins Hinv Hsh Hnp Hok Hnd Hb; cbn [fold_left] in *.
   - exists m, ps. rewrite app_nil_r. auto.
@@ -211,7 +213,7 @@ Proof.
     { intros Hin. apply (sh_dom _ _ _ _ _ Hsh) in Hin. cbn [map] in Hin. rewrite app_nil_r in Hin.
       apply NoDup_remove_2 in Hnd. apply Hnd. apply in_or_app. left. exact Hin. }
     pose proof (inputs_next l (emit_input st i)) as Hmn.
-    destruct (emit_input_sim m st ps i ins [] [] Hinv Hsh Hnp Hs Hw Hf Hn ltac:(lia)) as (v & ps1 & Hinv1 & Hsh1 & Hnp1 & _).
+    destruct (emit_input_sim v m st ps i ins [] [] Hinv Hsh Hnp Hs Hw Hf Hn ltac:(lia)) as (sv & ps1 & Hinv1 & Hsh1 & Hnp1 & _).
     destruct (IH _ _ _ _ Hinv1 Hsh1 Hnp1 Hok) as (m' & ps' & H1 & H2 & H3).
     + rewrite <- app_assoc. exact Hnd.
     + exact Hb.
@@ -250,12 +252,12 @@ Definition state_fits (s : state) : Prop :=
   efits (st_sym s) = true /\
   (forall e, st_init s = Some e -> efits e = true) /\ (forall e, st_next s = Some e -> efits e = true).
 
-Lemma emit_state_sim m st ps s ins sts sids st' sid :
-  Inv m st ps -> Sh m ps ins sts sids -> no_props ps ->
+Lemma emit_state_sim v m st ps s ins sts sids st' sid :
+  Inv v m st ps -> Sh m ps ins sts sids -> no_props ps ->
   state_ok s = true -> state_fits s -> ~ In (st_sym s) (sm_dom m) ->
   Forall (fun i => i < w_next st) sids ->
   emit_state st s = POk (st', sid) -> w_next st' <= BOUND ->
-  exists v ps', Inv ((st_sym s, v) :: m) st' ps' /\ Sh ((st_sym s, v) :: m) ps' ins (sts ++ [s]) (sids ++ [sid]) /\
+  exists sv ps', Inv v ((st_sym s, sv) :: m) st' ps' /\ Sh ((st_sym s, sv) :: m) ps' ins (sts ++ [s]) (sids ++ [sid]) /\
                 no_props ps' /\ Forall (fun i => i < w_next st') (sids ++ [sid]).
 Proof.
   intros Hinv Hsh Hnp Hok (Hfsym & Hfinit & _) Hn Hsids H Hb.
@@ -270,7 +272,7 @@ Proof.
              | None => POk (st1, None)
              end) = POk (st2, oiid) /\
             (w_next st2 <= BOUND -> 
-             Inv m st2 ps2 /\ rest_eq ps ps2 /\ find_sort t (w_sorts st2) = Some sort /\ w_next st <= w_next st2 /\
+             Inv v m st2 ps2 /\ rest_eq ps ps2 /\ find_sort t (w_sorts st2) = Some sort /\ w_next st <= w_next st2 /\
              match st_init s, oiid with
              | Some init, Some iid =>
                  let e0 := match t, init with TArr _ _, ArrayConstant e _ _ => e | _, _ => init end in
@@ -291,22 +293,22 @@ Proof.
       { specialize (Hfinit init eq_refl). subst e0. destruct t; [auto|]. destruct init; auto.
         split; [apply wt_aconst in Hwi; tauto|]. apply (efits_child (ArrayConstant init iw0 dw0)); [exact Hfinit|left; reflexivity]. }
       destruct Hw0 as [Hw0 Hf0].
-      assert (exists ps2, w_next st2 <= BOUND -> Inv m st2 ps2 /\ rest_eq ps ps2 /\ find_sort t (w_sorts st2) = Some sort /\
+      assert (exists ps2, w_next st2 <= BOUND -> Inv v m st2 ps2 /\ rest_eq ps ps2 /\ find_sort t (w_sorts st2) = Some sort /\
                           w_next st <= w_next st2 /\ find_expr e0 (w_exprs st2) = Some iid) as (ps2 & Hps2).
       { destruct (N.le_gt_cases (w_next st2) BOUND) as [Hle|Hgt].
         - pose proof (emit_expr_next _ _ _ _ He0) as Hmn.
-          destruct (sort_id_sim m st ps t st1 sort Hinv (efits_ty _ Hfsym) Es ltac:(lia)) as (ps1 & Hinv1 & Hr1 & _ & Hfs & Hmo1 & _).
-          destruct (emit_expr_sim m e0 st1 st2 iid ps1 Hinv1 Hw0 Hf0 He0 Hle) as (ps2 & Hinv2 & Hr2 & Hfe & Hmo2 & _).
+          destruct (sort_id_sim v m st ps t st1 sort Hinv (efits_ty _ Hfsym) (wt_pos _ Hwsym) Es ltac:(lia)) as (ps1 & Hinv1 & Hr1 & _ & Hfs & Hmo1 & _).
+          destruct (emit_expr_sim v m e0 st1 st2 iid ps1 Hinv1 Hw0 Hf0 He0 Hle) as (ps2 & Hinv2 & Hr2 & Hfe & Hmo2 & _).
           exists ps2. intros _. split; [exact Hinv2|]. split; [eapply rest_eq_trans; eauto|]. split; [apply Hmo2; exact Hfs|].
           split; [destruct Hmo1, Hmo2; lia|exact Hfe].
         - exists ps. intros Hle. lia. }
       exists ps2, (Some iid). split; [reflexivity|]. intros Hle. destruct (Hps2 Hle) as (A & B & C & D & E).
       split; [exact A|]. split; [exact B|]. split; [exact C|]. split; [exact D|]. split; [exact E|exact Hw0].
     - exists st1.
-      assert (exists ps1, w_next st1 <= BOUND -> Inv m st1 ps1 /\ rest_eq ps ps1 /\ find_sort t (w_sorts st1) = Some sort /\ w_next st <= w_next st1)
+      assert (exists ps1, w_next st1 <= BOUND -> Inv v m st1 ps1 /\ rest_eq ps ps1 /\ find_sort t (w_sorts st1) = Some sort /\ w_next st <= w_next st1)
         as (ps1 & Hps1).
       { destruct (N.le_gt_cases (w_next st1) BOUND) as [Hle|Hgt].
-        - destruct (sort_id_sim m st ps t st1 sort Hinv (efits_ty _ Hfsym) Es Hle) as (ps1 & Hinv1 & Hr1 & _ & Hfs & Hmo1 & _).
+        - destruct (sort_id_sim v m st ps t st1 sort Hinv (efits_ty _ Hfsym) (wt_pos _ Hwsym) Es Hle) as (ps1 & Hinv1 & Hr1 & _ & Hfs & Hmo1 & _).
           exists ps1. intros _. destruct Hmo1. auto.
         - exists ps. intros Hle. lia. }
       exists ps1, None. split; [reflexivity|]. intros Hle. destruct (Hps1 Hle) as (A & B & C & D).
@@ -316,29 +318,31 @@ Proof.
   assert (Hb2 : w_next st2 + 1 <= BOUND).
   { destruct oiid; inversion H; subst; cbn [reg_expr emit w_next] in Hb; lia. }
   destruct (Hfacts ltac:(lia)) as (Hinv2 & Hr2 & Hfs & Hmn2 & Hinit). clear Hfacts.
-  destruct (i_sorts _ _ _ Hinv2 _ _ Hfs) as [Hls Hts]. unfold BOUND in *.
+  destruct (i_sorts _ _ _ _ Hinv2 _ _ Hfs) as [Hls Hts]. unfold BOUND in *.
   assert (Hpos : ty_pos t) by (apply (wt_pos _ Hwsym)).
   destruct (state_line ps2 (w_next st2) sort t ltac:(lia) ltac:(lia) Hts Hpos) as (ps3 & n & Hl3 & Hce).
-  set (v := mk_sym n t) in *. destruct (mk_sym_props n t Hpos) as (Hv1 & Hv2 & Hv3). fold v in Hv1, Hv2, Hv3.
-  pose proof (inv_extend m st2 ps2 (st_sym s) v Hinv2 Hn Hv1 Hv2 Hv3) as Hinv2'.
-  assert (Hnone : find_expr (st_sym s) (w_exprs st2) = None) by (apply (not_cached m st2 ps2); auto).
+  set (sv := mk_sym n t) in *. destruct (mk_sym_props n t Hpos) as (Hv1 & Hv2 & Hv3). fold sv in Hv1, Hv2, Hv3.
+  pose proof (inv_extend v m st2 ps2 (st_sym s) sv Hinv2 Hn Hv1 Hv2 Hv3) as Hinv2'.
+  assert (Hnone : find_expr (st_sym s) (w_exprs st2) = None) by (apply (not_cached v m st2 ps2); auto).
   destruct Hce as (C1 & C2 & C3 & C4 & C5 & C6 & C7 & C8).
   cbn [set_signal add_state p_types p_statemap p_signals p_inputs p_states p_outputs p_bads p_constraints] in *.
-  set (m' := (st_sym s, v) :: m) in *.
-  assert (Htr : tr m' (st_sym s) = v).
+  set (m' := (st_sym s, sv) :: m) in *.
+  assert (Htr : tr m' (st_sym s) = sv).
   { destruct (st_sym s); cbn [is_symbol] in Hsym; try discriminate; cbn [tr]; apply sm_app_cons_same. }
-  destruct (inv_reg_expr' m' st2 ps2 [num (w_next st2); "state"; num sort] (st_sym s) ps3 Hinv2') as [Hinv3 Hmono3]; auto.
+  assert (Hl3v : parse_line_v v true ps2 [num (w_next st2); "state"; num sort] = POk ps3).
+  { apply plv; [intros _; apply (decl_pre ps2 _ sort t); auto; lia|exact Hl3]. }
+  destruct (inv_reg_expr' v m' st2 ps2 [num (w_next st2); "state"; num sort] (st_sym s) ps3 Hinv2') as [Hinv3 Hmono3]; auto.
   { rewrite (syms_symbol _ Hsym). intros x [<-|[]]. left. reflexivity. }
   { rewrite Htr. exact C3. }
   set (st3 := reg_expr (emit (fst (new_id st2)) [num (w_next st2); "state"; num sort]) (st_sym s) (w_next st2)) in *.
-  pose proof (rest_eq_sh _ _ _ _ _ _ Hr2 Hsh) as Hsh2. destruct (sh_extend m ps2 ins sts sids (st_sym s) v Hsh2 Hn) as [Hx1 Hx2].
+  pose proof (rest_eq_sh _ _ _ _ _ _ Hr2 Hsh) as Hsh2. destruct (sh_extend m ps2 ins sts sids (st_sym s) sv Hsh2 Hn) as [Hx1 Hx2].
   fold m' in Hx1, Hx2.
   pose proof (rest_eq_no_props _ _ Hr2 Hnp) as Hnp2.
   assert (Hnp3 : no_props ps3) by (destruct Hnp2 as (N1 & N2 & N3); repeat split; congruence).
   assert (Hlen : List.length (p_states ps2) = List.length sts).
   { rewrite (sh_states _ _ _ _ _ Hsh2), map_length. reflexivity. }
   (* the shape after the state line: the new state without init *)
-  assert (Hst3 : p_states ps3 = map (trs m' false) sts ++ [{| st_sym := v; st_init := None; st_next := None |}]).
+  assert (Hst3 : p_states ps3 = map (trs m' false) sts ++ [{| st_sym := sv; st_init := None; st_next := None |}]).
   { rewrite C5, (sh_states _ _ _ _ _ Hsh2), Hx2. reflexivity. }
   assert (Hids3 : forall j i, nth_error (sids ++ [w_next st2]) j = Some i -> PM.find (key i) (p_statemap ps3) = Some j).
   { intros j i Hj. rewrite C2. apply nth_error_snoc in Hj. destruct Hj as [Hj|[-> ->]].
@@ -355,12 +359,12 @@ Proof.
     destruct Hinit as [Hfe Hw0].
     set (e0 := match t, init with TArr _ _, ArrayConstant e _ _ => e | _, _ => init end) in *.
     assert (Hfe3 : find_expr e0 (w_exprs st3) = Some iid) by (apply Hmono3; exact Hfe).
-    destruct (i_exprs _ _ _ Hinv3 _ _ Hfe3) as (Hlti & Hsi & Hinci).
-    destruct (i_sorts _ _ _ Hinv3 t sort ltac:(apply Hmono3; exact Hfs)) as [_ Hts3].
+    destruct (i_exprs _ _ _ _ Hinv3 _ _ Hfe3) as (Hlti & Hsi & Hinci).
+    destruct (i_sorts _ _ _ _ Hinv3 t sort ltac:(apply Hmono3; exact Hfs)) as [_ Hts3].
     assert (Hwi : wt init = true /\ type_of init = t).
     { apply andb_true_iff in Hinitok. destruct Hinitok as [A B]. apply ty_eqb_eq in B. auto. }
     destruct Hwi as [Hwi Hti].
-    pose proof (i_map _ _ _ Hinv3) as Hm'.
+    pose proof (i_map _ _ _ _ Hinv3) as Hm'.
     assert (Hiv : init_value t (tr m' e0) = tr m' init) by (apply init_value_tr; auto).
     assert (Hl4 : parse_line true ps3 [num (w_next st3); "init"; num sort; num (w_next st2); num iid] =
                   POk (set_states ps3 (update_nth (List.length sts) (set_init (init_value t (tr m' e0))) (p_states ps3)))).
@@ -369,10 +373,10 @@ Proof.
         rewrite (sh_len _ _ _ _ _ Hsh), Nat.sub_diag. reflexivity.
       - rewrite Hst3. rewrite <- (map_length (trs m' false) sts) at 1. rewrite nth_last. exact Hv2.
       - rewrite Hiv. rewrite (tr_type m' init Hm' Hwi). exact Hti. }
-    eexists v, _. split; [|split; [|split]].
+    eexists sv, _. split; [|split; [|split]].
     + (* Inv *)
       destruct Hinv3 as [Hrun3 Hm3 Hs3 He3]. constructor.
-      * apply (run_emit _ _ ps3); [exact Hrun3|exact Hl4].
+      * apply (run_emit v _ _ ps3); [exact Hrun3|]. apply plv; [intros _; apply init_next_pre; [left; reflexivity|lia]|exact Hl4].
       * exact Hm3.
       * intros t0 id0 H0. cbn [emit new_id fst w_sorts w_next] in *. destruct (Hs3 _ _ H0). split; [lia|assumption].
       * intros x id0 H0. cbn [emit new_id fst w_exprs w_next] in *. destruct (He3 _ _ H0) as (A & B & C). split; [lia|auto].
@@ -395,7 +399,7 @@ Proof.
       * constructor; [cbn [emit new_id fst w_next]; lia|constructor].
   - (* without init *)
     inversion H; subst st' sid. clear H. fold st3 in Hb.
-    exists v, ps3. split; [exact Hinv3|]. split; [|split].
+    exists sv, ps3. split; [exact Hinv3|]. split; [|split].
     + constructor.
       * exact Hdom'.
       * rewrite C4, (sh_inputs _ _ _ _ _ Hsh2). symmetry. exact Hx1.
@@ -435,12 +439,12 @@ Qed.
 
 Definition st_ok (s : state) : Prop := state_ok s = true /\ state_fits s.
 
-Lemma states_sim : forall l m st ps ins sts sids st' ids,
-  Inv m st ps -> Sh m ps ins sts sids -> no_props ps ->
+Lemma states_sim v : forall l m st ps ins sts sids st' ids,
+  Inv v m st ps -> Sh m ps ins sts sids -> no_props ps ->
   Forall st_ok l -> NoDup (ins ++ map st_sym sts ++ map st_sym l) ->
   Forall (fun i => i < w_next st) sids ->
   emit_states st l = POk (st', ids) -> w_next st' <= BOUND ->
-  exists m' ps', Inv m' st' ps' /\ Sh m' ps' ins (sts ++ l) (sids ++ ids) /\ no_props ps' /\
+  exists m' ps', Inv v m' st' ps' /\ Sh m' ps' ins (sts ++ l) (sids ++ ids) /\ no_props ps' /\
                  Forall (fun i => i < w_next st') (sids ++ ids).
 Proof.
   induction l as [|s l IH]; intros m st ps ins sts sids st' ids Hinv Hsh Hnp Hok Hnd Hsids H Hb; cbn [emit_states] in H.
@@ -454,8 +458,8 @@ Proof.
     { intros Hin. apply (sh_dom _ _ _ _ _ Hsh) in Hin. cbn [map] in Hnd. rewrite app_assoc in Hnd.
       apply NoDup_remove_2 in Hnd. apply Hnd. apply in_or_app. left. exact Hin. }
     pose proof (emit_states_next _ _ _ _ E2) as Hmn.
-    destruct (emit_state_sim m st ps s ins sts sids st1 sid Hinv Hsh Hnp Hso Hsf Hn Hsids E1 ltac:(lia))
-      as (v & ps1 & Hinv1 & Hsh1 & Hnp1 & Hsids1).
+    destruct (emit_state_sim v m st ps s ins sts sids st1 sid Hinv Hsh Hnp Hso Hsf Hn Hsids E1 ltac:(lia))
+      as (sv & ps1 & Hinv1 & Hsh1 & Hnp1 & Hsids1).
     assert (Hnd' : NoDup (ins ++ map st_sym (sts ++ [s]) ++ map st_sym l)).
     { rewrite map_app. cbn [map]. rewrite <- !app_assoc. cbn [app]. exact Hnd. }
     destruct (IH _ _ _ _ _ _ _ _ Hinv1 Hsh1 Hnp1 Hok Hnd' Hsids1 E2 Hb) as (m' & ps' & A & B & C & D).
@@ -466,12 +470,12 @@ Proof.
 Qed.
 
 (** ** outputs, constraints, bad states *)
-Lemma inv_plain_line m st ps l ps' :
-  Inv m st ps -> parse_line true ps l = POk ps' -> p_types ps' = p_types ps -> p_signals ps' = p_signals ps ->
-  Inv m (emit (fst (new_id st)) l) ps'.
+Lemma inv_plain_line v m st ps l ps' :
+  Inv v m st ps -> parse_line_v v true ps l = POk ps' -> p_types ps' = p_types ps -> p_signals ps' = p_signals ps ->
+  Inv v m (emit (fst (new_id st)) l) ps'.
 Proof.
   intros [Hrun Hm Hs He] Hl Ht Hsg. constructor.
-  - apply (run_emit _ l ps); [exact Hrun|exact Hl].
+  - apply (run_emit v _ l ps); [exact Hrun|exact Hl].
   - exact Hm.
   - intros t0 id0 H0. cbn [emit new_id fst w_sorts w_next] in *. destruct (Hs _ _ H0). split; [lia|]. rewrite Ht. assumption.
   - intros x id0 H0. cbn [emit new_id fst w_exprs w_next] in *. destruct (He _ _ H0) as (A & B & C). split; [lia|]. rewrite Hsg. auto.
@@ -485,26 +489,31 @@ Definition klist (k : pk) (ps : pstate) : list expr :=
 Definition decl_eq (a b : pstate) : Prop :=
   p_statemap a = p_statemap b /\ p_inputs a = p_inputs b /\ p_states a = p_states b.
 
-Lemma prop_line k ps id body v : id <= U32MAX -> body <= U32MAX ->
-  PM.find (key body) (p_signals ps) = Some v ->
-  exists ps', parse_line true ps [num id; kstr k; num body] = POk ps' /\
+Lemma prop_line v k ps id body x : id <= U32MAX -> body <= U32MAX ->
+  PM.find (key body) (p_signals ps) = Some x ->
+  (is_fix v = true -> k = KOut \/ type_of x = TBV 1) ->
+  exists ps', parse_line_v v true ps [num id; kstr k; num body] = POk ps' /\
               p_types ps' = p_types ps /\ p_signals ps' = p_signals ps /\ decl_eq ps ps' /\
-              klist k ps' = klist k ps ++ [v] /\ (forall k', k' <> k -> klist k' ps' = klist k' ps).
+              klist k ps' = klist k ps ++ [x] /\ (forall k', k' <> k -> klist k' ps' = klist k' ps).
 Proof.
-  intros Hi Hb Fv. destruct k; cbn [kstr].
-  - destruct (output_line ps id body v Hi Hb Fv) as (ps' & n & Hl & C1 & C2 & C3 & C4 & C5 & C6 & C7 & C8).
+  intros Hi Hb Fv Hbool.
+  assert (Hpre : is_fix v = true -> all_pre ps [num id; kstr k; num body] = true).
+  { intros Hv. apply (prop_pre ps id body x); auto. destruct (Hbool Hv) as [->|Ht]; [left; reflexivity|].
+    destruct k; [left; reflexivity|right; split; [right; reflexivity|exact Ht]|right; split; [left; reflexivity|exact Ht]]. }
+  destruct k; cbn [kstr] in *.
+  - destruct (output_line ps id body x Hi Hb Fv) as (ps' & n & Hl & C1 & C2 & C3 & C4 & C5 & C6 & C7 & C8).
     cbn [add_output p_types p_statemap p_signals p_inputs p_states p_outputs p_bads p_constraints] in *.
-    exists ps'. split; [exact Hl|]. split; [exact C1|]. split; [exact C3|]. split; [repeat split; congruence|]. split.
+    exists ps'. split; [apply plv; assumption|]. split; [exact C1|]. split; [exact C3|]. split; [repeat split; congruence|]. split.
     + cbn [klist]. rewrite C6, map_app. reflexivity.
     + intros k' Hk. destruct k'; cbn [klist]; congruence.
-  - destruct (constraint_line ps id body v Hi Hb Fv) as (ps' & Hl & C1 & C2 & C3 & C4 & C5 & C6 & C7 & C8).
+  - destruct (constraint_line ps id body x Hi Hb Fv) as (ps' & Hl & C1 & C2 & C3 & C4 & C5 & C6 & C7 & C8).
     cbn [add_constraint p_types p_statemap p_signals p_inputs p_states p_outputs p_bads p_constraints] in *.
-    exists ps'. split; [exact Hl|]. split; [exact C1|]. split; [exact C3|]. split; [repeat split; congruence|]. split.
+    exists ps'. split; [apply plv; assumption|]. split; [exact C1|]. split; [exact C3|]. split; [repeat split; congruence|]. split.
     + cbn [klist]. exact C8.
     + intros k' Hk. destruct k'; cbn [klist]; congruence.
-  - destruct (bad_line ps id body v Hi Hb Fv) as (ps' & Hl & C1 & C2 & C3 & C4 & C5 & C6 & C7 & C8).
+  - destruct (bad_line ps id body x Hi Hb Fv) as (ps' & Hl & C1 & C2 & C3 & C4 & C5 & C6 & C7 & C8).
     cbn [add_bad p_types p_statemap p_signals p_inputs p_states p_outputs p_bads p_constraints] in *.
-    exists ps'. split; [exact Hl|]. split; [exact C1|]. split; [exact C3|]. split; [repeat split; congruence|]. split.
+    exists ps'. split; [apply plv; assumption|]. split; [exact C1|]. split; [exact C3|]. split; [repeat split; congruence|]. split.
     + cbn [klist]. exact C7.
     + intros k' Hk. destruct k'; cbn [klist]; congruence.
 Qed.
@@ -528,22 +537,28 @@ Qed.
 
 Definition expr_ok (e : expr) : Prop := wt e = true /\ efits e = true.
 
-Lemma props_sim k m : forall l st ps st',
-  Inv m st ps -> Forall expr_ok l ->
+Lemma props_sim v k m : forall l st ps st',
+  Inv v m st ps -> Forall expr_ok l ->
+  (is_fix v = true -> k = KOut \/ Forall (fun e => type_of e = TBV 1) l) ->
   emit_props (kstr k) st l = POk st' -> w_next st' <= BOUND ->
-  exists ps', Inv m st' ps' /\ decl_eq ps ps' /\ klist k ps' = klist k ps ++ map (tr m) l /\
+  exists ps', Inv v m st' ps' /\ decl_eq ps ps' /\ klist k ps' = klist k ps ++ map (tr m) l /\
               (forall k', k' <> k -> klist k' ps' = klist k' ps).
 Proof.
-  induction l as [|e l IH]; intros st ps st' Hinv Hok H Hb; cbn [emit_props] in H.
+  induction l as [|e l IH]; intros st ps st' Hinv Hok Hbool H Hb; cbn [emit_props] in H.
   - inversion H; subst. exists ps. split; [exact Hinv|]. split; [repeat split|]. split; [cbn [map]; rewrite app_nil_r; reflexivity|auto].
   - apply Forall_cons_iff in Hok. destruct Hok as [[Hw Hf] Hok].
     destruct (emit_expr e st) as [[st1 body]| |] eqn:E; cbn [pbind new_id] in H; try discriminate.
     pose proof (emit_props_next _ _ _ _ H) as Hmn. cbn [emit w_next] in Hmn.
-    destruct (emit_expr_sim m e st st1 body ps Hinv Hw Hf E ltac:(lia)) as (ps1 & Hinv1 & Hr1 & Hfe & Hmo1 & _).
-    destruct (i_exprs _ _ _ Hinv1 _ _ Hfe) as (Hlt & Hsg & _). unfold BOUND in *.
-    destruct (prop_line k ps1 (w_next st1) body (tr m e) ltac:(lia) ltac:(lia) Hsg) as (ps2 & Hl & C1 & C2 & C3 & C4 & C5).
-    pose proof (inv_plain_line m st1 ps1 _ ps2 Hinv1 Hl C1 C2) as Hinv2.
-    destruct (IH _ ps2 st' Hinv2 Hok H Hb) as (ps' & A & B & C & D).
+    destruct (emit_expr_sim v m e st st1 body ps Hinv Hw Hf E ltac:(lia)) as (ps1 & Hinv1 & Hr1 & Hfe & Hmo1 & _).
+    destruct (i_exprs _ _ _ _ Hinv1 _ _ Hfe) as (Hlt & Hsg & _). unfold BOUND in *.
+    assert (Hb1 : is_fix v = true -> k = KOut \/ type_of (tr m e) = TBV 1).
+    { intros Hv. destruct (Hbool Hv) as [->|Hall]; [left; reflexivity|right]. apply Forall_cons_iff in Hall. destruct Hall as [Ht _].
+      rewrite (tr_type m e (i_map _ _ _ _ Hinv) Hw). exact Ht. }
+    assert (Hb2 : is_fix v = true -> k = KOut \/ Forall (fun e => type_of e = TBV 1) l).
+    { intros Hv. destruct (Hbool Hv) as [->|Hall]; [left; reflexivity|right]. apply Forall_cons_iff in Hall. tauto. }
+    destruct (prop_line v k ps1 (w_next st1) body (tr m e) ltac:(lia) ltac:(lia) Hsg Hb1) as (ps2 & Hl & C1 & C2 & C3 & C4 & C5).
+    pose proof (inv_plain_line v m st1 ps1 _ ps2 Hinv1 Hl C1 C2) as Hinv2.
+    destruct (IH _ ps2 st' Hinv2 Hok Hb2 H Hb) as (ps' & A & B & C & D).
     exists ps'. split; [exact A|]. split; [eapply decl_eq_trans; [apply rest_eq_decl; exact Hr1|]; eapply decl_eq_trans; eauto|]. split.
     + rewrite C, C4, <- (rest_eq_klist _ _ k Hr1), <- app_assoc. reflexivity.
     + intros k' Hk. rewrite (D k' Hk), (C5 k' Hk). symmetry. apply rest_eq_klist. exact Hr1.
@@ -580,15 +595,15 @@ Proof.
   apply sort_id_mono_next in Es. apply emit_expr_next in E. apply IH in H. cbn [emit w_next] in H. lia.
 Qed.
 
-Lemma nexts_sim m : forall l2 ids2 l1 ids1 st ps st',
-  Inv m st ps ->
+Lemma nexts_sim v m : forall l2 ids2 l1 ids1 st ps st',
+  Inv v m st ps ->
   p_states ps = map (trs m true) l1 ++ map (trs m false) l2 ->
   (forall j sid, nth_error (ids1 ++ ids2) j = Some sid -> PM.find (key sid) (p_statemap ps) = Some j) ->
   List.length ids1 = List.length l1 -> List.length ids2 = List.length l2 ->
   Forall (fun i => i < w_next st) (ids1 ++ ids2) ->
   Forall st_ok l2 ->
   emit_nexts st l2 ids2 = POk st' -> w_next st' <= BOUND ->
-  exists ps', Inv m st' ps' /\ p_states ps' = map (trs m true) (l1 ++ l2) /\ props_eq ps ps'.
+  exists ps', Inv v m st' ps' /\ p_states ps' = map (trs m true) (l1 ++ l2) /\ props_eq ps ps'.
 Proof.
   induction l2 as [|s l2 IH]; intros ids2 l1 ids1 st ps st' Hinv Hst Hids Hl1 Hl2 Hlt Hok H Hb; cbn [emit_nexts] in H.
   - inversion H; subst. exists ps. split; [exact Hinv|]. split; [|repeat split]. rewrite Hst, app_nil_r. cbn [map]. rewrite app_nil_r. reflexivity.
@@ -606,12 +621,12 @@ Proof.
       rename H0 into Hnextok, H1 into Hinitok, H2 into Hwsym. rename Hso into Hsym.
       rewrite En in Hnextok. apply andb_true_iff in Hnextok. destruct Hnextok as [Hwnx Htnx]. apply ty_eqb_eq in Htnx.
       destruct Hsf as (Hfsym & _ & Hfnx). specialize (Hfnx nx En).
-      destruct (sort_id_sim m st ps (type_of (st_sym s)) st1 sort Hinv (efits_ty _ Hfsym) Es ltac:(lia))
+      destruct (sort_id_sim v m st ps (type_of (st_sym s)) st1 sort Hinv (efits_ty _ Hfsym) (wt_pos _ Hwsym) Es ltac:(lia))
         as (ps1 & Hinv1 & Hr1 & _ & Hfs & Hmo1 & _).
-      destruct (emit_expr_sim m nx st1 st2 nid ps1 Hinv1 Hwnx Hfnx E ltac:(lia)) as (ps2 & Hinv2 & Hr2 & Hfe & Hmo2 & _).
-      destruct (i_exprs _ _ _ Hinv2 _ _ Hfe) as (Hltn & Hsgn & _).
-      destruct (i_sorts _ _ _ Hinv2 _ _ (proj1 (proj2 Hmo2) _ _ Hfs)) as (Hlts & Hts).
-      pose proof (i_map _ _ _ Hinv) as Hm.
+      destruct (emit_expr_sim v m nx st1 st2 nid ps1 Hinv1 Hwnx Hfnx E ltac:(lia)) as (ps2 & Hinv2 & Hr2 & Hfe & Hmo2 & _).
+      destruct (i_exprs _ _ _ _ Hinv2 _ _ Hfe) as (Hltn & Hsgn & _).
+      destruct (i_sorts _ _ _ _ Hinv2 _ _ (proj1 (proj2 Hmo2) _ _ Hfs)) as (Hlts & Hts).
+      pose proof (i_map _ _ _ _ Hinv) as Hm.
       pose proof (rest_eq_trans _ _ _ Hr1 Hr2) as Hr12. destruct Hr12 as (R1 & R2 & R3 & R4 & R5 & R6).
       assert (Hsid : sid < w_next st).
       { rewrite Forall_forall in Hlt. apply Hlt. apply in_or_app. right. left. reflexivity. }
@@ -624,7 +639,10 @@ Proof.
         - rewrite <- R3, Hst. cbn [map]. rewrite <- (map_length (trs m true) l1). rewrite nth_mid. cbn [trs st_sym].
           apply sm_app_type. exact Hm.
         - rewrite (tr_type m nx Hm Hwnx). exact Htnx. }
-      pose proof (inv_plain_line m st2 ps2 _ _ Hinv2 Hl eq_refl eq_refl) as Hinv3.
+      assert (Hlv : parse_line_v v true ps2 [num (w_next st2); "next"; num sort; num sid; num nid] =
+                    POk (set_states ps2 (update_nth (List.length l1) (set_next (tr m nx)) (p_states ps2)))).
+      { apply plv; [intros _; apply init_next_pre; [right; reflexivity|lia]|exact Hl]. }
+      pose proof (inv_plain_line v m st2 ps2 _ _ Hinv2 Hlv eq_refl eq_refl) as Hinv3.
       destruct (IH ids2 (l1 ++ [s]) (ids1 ++ [sid]) _ _ st' Hinv3) as (ps' & A & B & C); auto.
       * cbn [set_states p_states]. rewrite <- R3, Hst. cbn [map]. rewrite <- (map_length (trs m true) l1) at 1.
         rewrite update_nth_mid, map_app. cbn [map]. rewrite <- app_assoc. cbn [app]. f_equal. f_equal.
@@ -691,7 +709,7 @@ Proof.
 Qed.
 
 (** ** the whole text *)
-Lemma inv_init : Inv [] w_empty p_empty.
+Lemma inv_init v : Inv v [] w_empty p_empty.
 Proof. constructor; [reflexivity|apply map_ok_nil| |]; intros ? ? H; discriminate. Qed.
 
 Lemma sh_init' : Sh [] p_empty [] [] [].
@@ -721,16 +739,17 @@ Proof.
   - apply IH. exact H3.
 Qed.
 
-Theorem serialize_parse_raw sy lines :
-  sys_ok_weak sy = true -> NoDup (declared sy) -> sys_fits sy = true ->
+Theorem serialize_parse_raw v sy lines :
+  sys_ok_weak sy = true -> (is_fix v = true -> props_1bit sy = true) ->
+  NoDup (declared sy) -> sys_fits sy = true ->
   serialize sy = POk lines -> N.of_nat (List.length lines) <= U32MAX ->
-  exists m ps, map_ok m /\ parse_fold true lines p_empty false = POk (ps, false) /\
+  exists m ps, map_ok m /\ parse_fold_v v true lines p_empty false = POk (ps, false) /\
     p_inputs ps = map (sm_app m) (s_inputs sy) /\
     p_states ps = map (trs m true) (s_states sy) /\
     map snd (p_outputs ps) = map (tr m) (map snd (s_outputs sy)) /\
     p_bads ps = map (tr m) (s_bads sy) /\ p_constraints ps = map (tr m) (s_constraints sy).
 Proof.
-  intros Hok Hnd Hfit H Hlen. unfold serialize in H.
+  intros Hok H1bit Hnd Hfit H Hlen. unfold serialize in H.
   set (st1 := fold_left emit_input (s_inputs sy) w_empty) in *.
   destruct (emit_states st1 (s_states sy)) as [[st2 ids]| |] eqn:E2; cbn [pbind] in H; try discriminate.
   destruct (emit_props "output" st2 (map snd (s_outputs sy))) as [st3| |] eqn:E3; cbn [pbind] in H; try discriminate.
@@ -773,27 +792,35 @@ Proof.
   assert (Hcons : Forall expr_ok (s_constraints sy)) by (apply Forall_forall; intros e He; split; auto).
   assert (Hbads : Forall expr_ok (s_bads sy)) by (apply Forall_forall; intros e He; split; auto).
   (* inputs *)
-  destruct (inputs_sim (s_inputs sy) [] w_empty p_empty [] inv_init sh_init' ltac:(repeat split) Hins) as (m1 & ps1 & Hinv1 & Hsh1 & Hnp1).
+  destruct (inputs_sim v (s_inputs sy) [] w_empty p_empty [] (inv_init v) sh_init' ltac:(repeat split) Hins) as (m1 & ps1 & Hinv1 & Hsh1 & Hnp1).
   { cbn [app]. unfold declared in Hnd. apply nodup_app_l in Hnd. exact Hnd. }
   { fold st1. lia. }
   fold st1 in Hinv1. cbn [app] in Hsh1.
   (* states *)
-  destruct (states_sim (s_states sy) m1 st1 ps1 (s_inputs sy) [] [] st2 ids Hinv1 Hsh1 Hnp1 Hsts) as (m & ps2 & Hinv2 & Hsh2 & Hnp2 & Hids2); auto.
+  destruct (states_sim v (s_states sy) m1 st1 ps1 (s_inputs sy) [] [] st2 ids Hinv1 Hsh1 Hnp1 Hsts) as (m & ps2 & Hinv2 & Hsh2 & Hnp2 & Hids2); auto.
   { lia. }
   cbn [app] in Hsh2, Hids2.
   (* outputs, constraints, bads *)
-  destruct (props_sim KOut m _ st2 ps2 st3 Hinv2 Houts E3 ltac:(lia)) as (ps3 & Hinv3 & Hd3 & Hk3 & Ho3).
-  destruct (props_sim KCon m _ st3 ps3 st4 Hinv3 Hcons E4 ltac:(lia)) as (ps4 & Hinv4 & Hd4 & Hk4 & Ho4).
-  destruct (props_sim KBad m _ st4 ps4 st5 Hinv4 Hbads E5 ltac:(lia)) as (ps5 & Hinv5 & Hd5 & Hk5 & Ho5).
+  assert (H1c : is_fix v = true -> KCon = KOut \/ Forall (fun e => type_of e = TBV 1) (s_constraints sy)).
+  { intros Hv. right. specialize (H1bit Hv). unfold props_1bit in H1bit. rewrite forallb_app in H1bit.
+    apply andb_true_iff in H1bit. destruct H1bit as [_ Hc]. rewrite forallb_forall in Hc. apply Forall_forall.
+    intros e He. apply ty_eqb_eq. apply Hc. exact He. }
+  assert (H1b : is_fix v = true -> KBad = KOut \/ Forall (fun e => type_of e = TBV 1) (s_bads sy)).
+  { intros Hv. right. specialize (H1bit Hv). unfold props_1bit in H1bit. rewrite forallb_app in H1bit.
+    apply andb_true_iff in H1bit. destruct H1bit as [Hc _]. rewrite forallb_forall in Hc. apply Forall_forall.
+    intros e He. apply ty_eqb_eq. apply Hc. exact He. }
+  destruct (props_sim v KOut m _ st2 ps2 st3 Hinv2 Houts ltac:(intros _; left; reflexivity) E3 ltac:(lia)) as (ps3 & Hinv3 & Hd3 & Hk3 & Ho3).
+  destruct (props_sim v KCon m _ st3 ps3 st4 Hinv3 Hcons H1c E4 ltac:(lia)) as (ps4 & Hinv4 & Hd4 & Hk4 & Ho4).
+  destruct (props_sim v KBad m _ st4 ps4 st5 Hinv4 Hbads H1b E5 ltac:(lia)) as (ps5 & Hinv5 & Hd5 & Hk5 & Ho5).
   pose proof (decl_eq_trans _ _ _ Hd3 (decl_eq_trans _ _ _ Hd4 Hd5)) as (D1 & D2 & D3).
   (* nexts *)
-  destruct (nexts_sim m (s_states sy) ids [] [] st5 ps5 st6 Hinv5) as (ps6 & Hinv6 & Hst6 & P1 & P2 & P3 & P4 & P5); auto.
+  destruct (nexts_sim v m (s_states sy) ids [] [] st5 ps5 st6 Hinv5) as (ps6 & Hinv6 & Hst6 & P1 & P2 & P3 & P4 & P5); auto.
   { cbn [map app]. rewrite <- D3. apply (sh_states _ _ _ _ _ Hsh2). }
   { cbn [app]. intros j sid Hj. rewrite <- D1. apply (sh_ids _ _ _ _ _ Hsh2 _ _ Hj). }
   { apply (emit_states_len _ _ _ _ E2). }
   { cbn [app]. eapply Forall_impl; [|exact Hids2]. intros a Ha. cbn beta in *. lia. }
   cbn [app] in Hst6.
-  exists m, ps6. split; [apply (i_map _ _ _ Hinv6)|]. split; [exact (i_run _ _ _ Hinv6)|].
+  exists m, ps6. split; [apply (i_map _ _ _ _ Hinv6)|]. split; [exact (i_run _ _ _ _ Hinv6)|].
   destruct Hnp2 as (Q1 & Q2 & Q3).
   split; [rewrite <- P1, <- D2; apply (sh_inputs _ _ _ _ _ Hsh2)|]. split; [exact Hst6|]. split; [|split].
   - rewrite <- P3. change (map snd (p_outputs ps5)) with (klist KOut ps5).
